@@ -215,6 +215,29 @@ func (e *wsEnv) serveUpstream(u *upstream) {
 			if err := writeServerFrame(conn, b); err != nil {
 				return
 			}
+		case "bigevent":
+			// an event of some 20 kB (the gateway forwards what the service says, whatever the schema promises)
+			u.emitted++
+			b, _ := json.Marshal(map[string]interface{}{"type": "data", "id": "1", "payload": map[string]interface{}{"data": map[string]interface{}{"tick": strings.Repeat("0123456789abcdef", 1280)}}})
+			if err := writeServerFrame(conn, b); err != nil {
+				return
+			}
+		case "event-fragmented":
+			// the same event as two websocket frames (a text frame without FIN and its continuation): what a service
+			// whose library writes messages above its buffer size in pieces does
+			u.emitted++
+			b, _ := json.Marshal(map[string]interface{}{"type": "data", "id": "1", "payload": e.eventPayload(u, e.eventBase+u.index*10+u.emitted)})
+			h := len(b) / 2
+			for i, fr := range []ws.Frame{ws.NewFrame(ws.OpText, false, b[:h]), ws.NewFrame(ws.OpContinuation, true, b[h:])} {
+				fb, err := ws.CompileFrame(fr)
+				if err != nil {
+					panic(err)
+				}
+				if _, err := conn.Write(fb); err != nil {
+					return
+				}
+				_ = i
+			}
 		case "quiet11s":
 			// the service has nothing to say for 11 s (keep-alives are optional in graphql-ws)
 			vrt.Sleep(11 * time.Second)
@@ -266,17 +289,40 @@ func parseServerStream(b []byte) (frames []frame, problem string) {
 		return nil, "upgrade not accepted"
 	}
 	b = b[i+4:]
+	// what follows a complete close frame is the connection being torn down, not protocol output any more: a writer
+	// that was in the middle of a frame when the gateway closed the connection of a client that does not read leaves
+	// a cut-off tail there (the statement asks for well-formed messages, the close frame ends them)
+	closed := false
+	inFragment := false
+	var partial []byte
+	trunc := func(problem string) ([]frame, string) {
+		if closed {
+			return frames, ""
+		}
+		return frames, problem
+	}
 	for len(b) > 0 {
 		if len(b) < 2 {
-			return frames, "truncated frame header"
+			return trunc("truncated frame header")
 		}
 		b0, b1 := b[0], b[1]
 		if b0&0x70 != 0 {
 			return frames, "reserved bits set in a frame header"
 		}
 		op := b0 & 0x0f
-		if op != 0x1 && op != 0x8 && op != 0x9 && op != 0xa {
+		fin := b0&0x80 != 0
+		if op != 0x0 && op != 0x1 && op != 0x8 && op != 0x9 && op != 0xa {
 			return frames, fmt.Sprintf("unexpected opcode %d", op)
+		}
+		// fragmented messages (RFC 6455 5.4): a text frame without FIN, continuation frames, the last one with FIN;
+		// control frames may come in between, another data frame may not
+		switch {
+		case op == 0x0 && !inFragment:
+			return frames, "continuation frame without a message to continue"
+		case op == 0x1 && inFragment:
+			return frames, "a new data frame inside a fragmented message (frames of two writers interleaved)"
+		case op >= 0x8 && !fin:
+			return frames, "fragmented control frame"
 		}
 		if b1&0x80 != 0 {
 			return frames, "server frame is masked"
@@ -286,13 +332,13 @@ func parseServerStream(b []byte) (frames []frame, problem string) {
 		switch n {
 		case 126:
 			if len(b) < 4 {
-				return frames, "truncated extended length"
+				return trunc("truncated extended length")
 			}
 			n = int(b[2])<<8 | int(b[3])
 			off = 4
 		case 127:
 			if len(b) < 10 {
-				return frames, "truncated extended length"
+				return trunc("truncated extended length")
 			}
 			n = 0
 			for k := 2; k < 10; k++ {
@@ -301,10 +347,29 @@ func parseServerStream(b []byte) (frames []frame, problem string) {
 			off = 10
 		}
 		if n < 0 || len(b) < off+n {
-			return frames, "frame payload shorter than its header says"
+			return trunc("frame payload shorter than its header says")
 		}
-		frames = append(frames, frame{Opcode: op, Payload: append([]byte(nil), b[off:off+n]...)})
+		if op == 0x8 {
+			closed = true
+		}
+		switch {
+		case op == 0x1 && !fin:
+			inFragment = true
+			partial = append([]byte(nil), b[off:off+n]...)
+		case op == 0x0:
+			partial = append(partial, b[off:off+n]...)
+			if fin {
+				inFragment = false
+				frames = append(frames, frame{Opcode: 0x1, Payload: partial})
+				partial = nil
+			}
+		default:
+			frames = append(frames, frame{Opcode: op, Payload: append([]byte(nil), b[off:off+n]...)})
+		}
 		b = b[off+n:]
+	}
+	if inFragment && !closed {
+		return frames, "stream ends inside a fragmented message"
 	}
 	return frames, ""
 }
